@@ -68,6 +68,23 @@ def _law_code(tr, lab, expected):
 class Monitor:
     pid = None
 
+    def on_impure(self, root, op, operands, first, again, unary_srcs, acc):
+        """the same call on the same object gave another result after the object had been used by other operations"""
+        names = ['x', 'y']
+        call = op.spellings[0][1].format(*names[:len(operands)])
+        lines = ['%s = %s' % (names[i], s_.expr) for i, s_ in enumerate(operands)]
+        lines += ['def outcome(f):', '    try:', "        return ('ok', str(f()))", '    except Exception as e:',
+                  "        return ('raise', type(e).__name__)",
+                  'a = outcome(lambda: %s)' % call,
+                  '# every unary operation of the level, applied once to the same object',
+                  'for f in [%s]:' % ', '.join('lambda: ' + u for u in unary_srcs),
+                  '    outcome(f)',
+                  'b = outcome(lambda: %s)' % call, 'assert a == b, (a, b)']
+        acc.viol.append(V(
+            f'{self.pid}|impure|{op.label()}|' + '|'.join(s_.expr for s_ in operands),
+            f"{call} with x = {operands[0].expr}: {first!r} the first time, {again!r} after the object had been used by other operations",
+            '\n'.join(lines)))
+
     def on_transition(self, tr, succ, acc):
         raise NotImplementedError
 
